@@ -81,7 +81,32 @@ class Exec(object):
         s2 = st
         s2.assume(z3.Not(cond))
         s2.trace.append('F')
+        if getattr(self, 'prune', False):
+            # contract asked for path pruning: quick subprocess feasibility check (unsat => dead path)
+            from . import smt
+            out = []
+            for s, k in ((s1, then), (s2, orelse)):
+                r = smt.solve_text(smt.to_smt2(s.pc), budget=3.0, tag='prune')
+                self.prune_stats = getattr(self, 'prune_stats', 0) + 1
+                if r['verdict'] == 'unsat':
+                    continue
+                out += k(s)
+            return out
         return then(s1) + orelse(s2)
+
+    def unopt(self, v, st, fn):
+        """use an Optional value where a non-None one is required (None -> TypeError)"""
+        if isinstance(v, VOpt):
+            return self.branch(v.isnone, st, lambda s: self.exc(TypeError, s), lambda s: fn(v.val, s))
+        if isinstance(v, VNone):
+            return self.exc(TypeError, st)
+        return fn(v, st)
+
+    def unopt_all(self, vs, st, fn, acc=None):
+        acc = acc or []
+        if len(acc) == len(vs):
+            return fn(acc, st)
+        return self.unopt(vs[len(acc)], st, lambda x, s: self.unopt_all(vs, s, fn, acc + [x]))
 
     def fresh(self, t, prefix, st):
         """Fresh symbolic value of type descriptor t."""
@@ -364,6 +389,19 @@ class Exec(object):
         if isinstance(o, VOpt):
             return self.branch(o.isnone, st, lambda s: self.exc(TypeError, s),
                                lambda s: self.setitem(o.val, i, v, s))
+        if isinstance(o, VRef) and isinstance(st.heap[o.ref], HBytes):
+            h = st.heap[o.ref]
+            n = z3.Length(h.t)
+            idx = norm_index(i.t, n)
+
+            def okb(s):
+                def inrange(s2):
+                    h2 = s2.heap[o.ref]
+                    h2.t = z3.Concat(z3.SubString(h2.t, 0, idx), z3.StrFromCode(v.t),
+                                     z3.SubString(h2.t, idx + 1, n - idx - 1))
+                    return [('next', None, s2)]
+                return self.branch(z3.And(v.t >= 0, v.t <= 255), s, inrange, lambda s2: self.exc(ValueError, s2))
+            return self.branch(z3.And(idx >= 0, idx < n), st, okb, lambda s: self.exc(IndexError, s))
         if isinstance(o, VRef):
             h = st.heap[o.ref]
             if isinstance(h, HList):
@@ -576,8 +614,23 @@ class Exec(object):
         return step(0, st)
 
     def ex_IfExp(self, n, st, fr):
+        def has_call(x):
+            return any(isinstance(y, (ast.Call, ast.Await)) for y in ast.walk(x))
+
         def go(v, s):
-            return self.branch(truthy(v, s), s, lambda s2: self.eval(n.body, s2, fr),
+            c = truthy(v, s)
+            if const_bool(c) is None and not has_call(n.body) and not has_call(n.orelse):
+                # pure branches: merge into an If-term instead of forking the path
+                try:
+                    ra = self.eval(n.body, s.fork(), fr)
+                    rb = self.eval(n.orelse, s.fork(), fr)
+                    if len(ra) == 1 and len(rb) == 1 and ra[0][0] == 'val' and rb[0][0] == 'val' \
+                            and len(ra[0][2].pc) == len(s.pc) and len(rb[0][2].pc) == len(s.pc) \
+                            and len(ra[0][2].obls) == len(s.obls) and len(rb[0][2].obls) == len(s.obls):
+                        return self.val(merge_vals(c, ra[0][1], rb[0][1], s), s)
+                except Unsupported:
+                    pass
+            return self.branch(c, s, lambda s2: self.eval(n.body, s2, fr),
                                lambda s2: self.eval(n.orelse, s2, fr))
         return self.bind(self.eval(n.test, st, fr), go)
 
@@ -602,6 +655,13 @@ class Exec(object):
         if isinstance(op, (ast.FloorDiv, ast.Mod)) and isinstance(b, VInt):
             return self.branch(b.t == 0, s, lambda s2: self.exc(ZeroDivisionError, s2),
                                lambda s2: self.val(binop(op, a, b, s2), s2))
+        if isinstance(op, (ast.BitAnd, ast.BitOr, ast.BitXor)) and isinstance(a, VInt) and isinstance(b, VInt):
+            from .engine import BITWIDTH
+            if const_int(a.t) is None or const_int(b.t) is None:
+                lim = 2 ** BITWIDTH[0]
+                s.obls.append(('bitop-range@%d' % getattr(n, 'lineno', 0), list(s.pc),
+                               z3.And(a.t >= 0, a.t < lim, b.t >= 0, b.t < lim),
+                               {'kind': 'bitop-range', 'note': 'Int<->BV encoding is exact only within the width'}))
         if isinstance(op, ast.Add) and isinstance(a, VRef) and isinstance(s.heap[a.ref], HList):
             r = binop(op, a, b, s)
             return self.val(s.alloc(HList(r.etype, r.t)), s)
@@ -766,6 +826,8 @@ class Exec(object):
                 s.assume(z3.And(c >= 0, c <= 255))
                 return self.val(VInt(c), s)
             return self.branch(z3.And(idx >= 0, idx < n), st, ok, lambda s: self.exc(IndexError, s))
+        if isinstance(o, VRef) and isinstance(st.heap[o.ref], HBytes):
+            return self.index(VStr(st.heap[o.ref].t, 'bytes'), i, st)
         if isinstance(o, VRef):
             h = st.heap[o.ref]
             if isinstance(h, HDict):
